@@ -244,6 +244,13 @@ class FunctionValue:
         return None if r is FELL else r
 
 
+class OneShot(list):
+    """a one-shot iterable (generator expression, map, zip): iterating it a second time yields nothing"""
+
+    def __repr__(self) -> str:
+        return f"OneShot({list.__repr__(self)})"
+
+
 class _Deque(list):
     """collections.deque with the few methods the generator uses"""
 
@@ -570,6 +577,10 @@ class Evaluator:
             raise Undecided("recursion depth")
 
     def iterate(self, v: Any) -> List[Any]:
+        if isinstance(v, OneShot):
+            items = list(v)
+            v.clear()  # a generator / map / zip object yields its items once
+            return items
         if isinstance(v, (set, frozenset)) and any(isinstance(x, str) for x in v):
             # str hashes are salted per process: the iteration order of such a set is not reproducible
             self.order_events.append(sorted(map(str, v))[:4])
@@ -1149,6 +1160,26 @@ def _getattr(o: Any, name: Any, *default: Any) -> Any:
     raise Undecided("getattr on abstract value")
 
 
+def _hasattr(o: Any, name: Any) -> bool:
+    if not isinstance(name, str):
+        raise Undecided("hasattr with an abstract name")
+    if isinstance(o, (list, tuple, set, frozenset, dict, range, str)):
+        return hasattr(o, name)
+    if o is None or isinstance(o, (bool, int, float)):
+        return hasattr(o, name)
+    if isinstance(o, Obj):
+        if name in o.attrs:
+            return True
+        if o.resolver is not None:
+            try:
+                o.resolver(o, name)
+                return True
+            except Undecided:
+                return False
+        return False
+    raise Undecided("hasattr on abstract value")
+
+
 def _len(x: Any) -> int:
     if isinstance(x, (list, tuple, str, dict, range, set, frozenset)):
         return len(x)
@@ -1234,6 +1265,7 @@ BUILTINS: Dict[str, Callable[..., Any]] = {
     "product": lambda *xs, repeat=1: [tuple(t) for t in itertools.product(*[list(x) for x in xs], repeat=repeat)],
     "combinations": lambda xs, r: [tuple(t) for t in itertools.combinations(list(xs), r)],
     "getattr": lambda o, name, *d: _getattr(o, name, *d),
+    "hasattr": lambda o, name: _hasattr(o, name),
     "functools.reduce": lambda f, xs, *init: __import__("functools").reduce(f, list(xs), *init),
     "cast": lambda t, v: v,
     "typing.cast": lambda t, v: v,
